@@ -39,13 +39,33 @@ inductive PT where
   deriving Repr, Inhabited
 
 namespace PT
-@[simp] def id : PT → Nat | node i _ _ _ => i
-@[simp] def val : PT → Int | node _ v _ _ => v
-@[simp] def parent : PT → Option Nat | node _ _ p _ => p
-@[simp] def kids : PT → List PT | node _ _ _ k => k
-@[simp] def setParent (p : Option Nat) : PT → PT | node i v _ ks => node i v p ks
-@[simp] def setVal (v : Int) : PT → PT | node i _ p ks => node i v p ks
-@[simp] def setKids (ks : List PT) : PT → PT | node i v p _ => node i v p ks
+def id : PT → Nat | node i _ _ _ => i
+def val : PT → Int | node _ v _ _ => v
+def parent : PT → Option Nat | node _ _ p _ => p
+def kids : PT → List PT | node _ _ _ k => k
+def setParent (p : Option Nat) : PT → PT | node i v _ ks => node i v p ks
+def setVal (v : Int) : PT → PT | node i _ p ks => node i v p ks
+def setKids (ks : List PT) : PT → PT | node i v p _ => node i v p ks
+
+@[simp] theorem id_node (i v p ks) : (node i v p ks).id = i := rfl
+@[simp] theorem val_node (i v p ks) : (node i v p ks).val = v := rfl
+@[simp] theorem parent_node (i v p ks) : (node i v p ks).parent = p := rfl
+@[simp] theorem kids_node (i v p ks) : (node i v p ks).kids = ks := rfl
+@[simp] theorem setParent_node (q i v p ks) : (node i v p ks).setParent q = node i v q ks := rfl
+@[simp] theorem setVal_node (w i v p ks) : (node i v p ks).setVal w = node i w p ks := rfl
+@[simp] theorem setKids_node (ls i v p ks) : (node i v p ks).setKids ls = node i v p ls := rfl
+@[simp] theorem id_setParent (q) (t : PT) : (t.setParent q).id = t.id := by cases t; rfl
+@[simp] theorem id_setVal (w) (t : PT) : (t.setVal w).id = t.id := by cases t; rfl
+@[simp] theorem id_setKids (ls) (t : PT) : (t.setKids ls).id = t.id := by cases t; rfl
+@[simp] theorem parent_setParent (q) (t : PT) : (t.setParent q).parent = q := by cases t; rfl
+@[simp] theorem parent_setVal (w) (t : PT) : (t.setVal w).parent = t.parent := by cases t; rfl
+@[simp] theorem parent_setKids (ls) (t : PT) : (t.setKids ls).parent = t.parent := by cases t; rfl
+@[simp] theorem kids_setParent (q) (t : PT) : (t.setParent q).kids = t.kids := by cases t; rfl
+@[simp] theorem kids_setVal (w) (t : PT) : (t.setVal w).kids = t.kids := by cases t; rfl
+@[simp] theorem kids_setKids (ls) (t : PT) : (t.setKids ls).kids = ls := by cases t; rfl
+@[simp] theorem val_setParent (q) (t : PT) : (t.setParent q).val = t.val := by cases t; rfl
+@[simp] theorem val_setVal (w) (t : PT) : (t.setVal w).val = w := by cases t; rfl
+@[simp] theorem val_setKids (ls) (t : PT) : (t.setKids ls).val = t.val := by cases t; rfl
 
 /-- number of objects in a tree -/
 def size : PT → Nat
